@@ -36,6 +36,9 @@ CHECKS['C11'] = dict(level='other', ref='4/C11',
 CHECKS['C15'] = dict(level='translation_validation', ref='4/C15',
    text="Symbol tables emitted for every C05 shape are compared with the independently decoded layout; the loader's debug-section reader, lookupSymbol and trace()'s symbol+offset are executed with symbolic ascending offsets and symbolic lastPC and z3 proves the reported symbol/offset; the arguments of trace() per executed instruction are proved equal to the executed byte, address and count; mnemonic strings checked against hexb.pdf.",
    note=LNOTE + " boost::format cut at operator% (fed values checked, rendering outside).")
+CHECKS['C14'] = dict(level='other', ref='4/C14',
+   text="The main() functions of hexasm, xcmp, xrun and hexsim are executed from their IR with C++ exception handling modelled, under every combination of argv shape and stage outcome (returns / throws hexutil::Error / throws std::runtime_error) with Processor::run's value symbolic: exit status 0 iff nothing failed, the -o name (default a.out) is the one handed to the emitter, nothing is written after a failure, xrun/hexsim return the program's exit value (proved by z3).",
+   note="Trusted: irsym's EH model, the stage cuts (library stages reduced to their outcome), enumeration of argv shapes; diagnostic text and 8-bit status truncation outside.")
 NA = {}
 ALL = [json.loads(l)['id'] for l in open(os.path.join(V, 'properties.jsonl'))]
 PENDING = "check not built yet in this session (planned in DESIGN.md); not claimed until it exists"
